@@ -128,7 +128,21 @@ class Handler(BaseHTTPRequestHandler):
             good = BODIES[sc['good']]
             if beh == 'garbage':
                 return self._send(200, b'<html><body>no such file</body></html>')
-            h = hashlib.md5(good if beh in ('correct', 'upper', 'latin1', 'latin1_undeclared', 'multi') else b'something else').hexdigest()
+            h = hashlib.md5(good if beh in ('correct', 'upper', 'latin1', 'latin1_undeclared', 'multi', 'bare', 'nolength', 'gzip_md5') else b'something else').hexdigest()
+            if beh == 'bare':          # only the 32 hex digits: no file name, no line break
+                return self._send(200, h.encode())
+            if beh == 'nolength':      # a body delimited by closing the connection (no Content-Length header)
+                self.send_response(200)
+                self.send_header('Content-Type', 'text/plain')
+                self.send_header('Connection', 'close')
+                self.end_headers()
+                self.wfile.write((h + '  file.bin\n').encode())
+                self.close_connection = True
+                return
+            if beh == 'gzip_md5':      # the checksum text compressed in transit, as web servers do for text/plain
+                import gzip
+                z = gzip.compress((h + '  file.bin\n').encode())
+                return self._send(200, z, headers=[('Content-Encoding', 'gzip'), ('Content-Type', 'text/plain')])
             if beh == 'multi':       # md5sum output for several files: the first line is this file's digest
                 return self._send(200, ('%s  file.bin\n%s  file.bin.orig\n%s  other.bin\n' % (
                     h, hashlib.md5(BODIES['corrupt']).hexdigest(), hashlib.md5(CORRUPT + b'x').hexdigest())).encode())
@@ -230,6 +244,8 @@ def run_shard(desc, ctx):
             extra.append({'data': dd, 'md5': 'latin1', 'prior': pr, 'good': 'good', 'head': 'ok'})
             extra.append({'data': dd, 'md5': 'latin1_undeclared', 'prior': pr, 'good': 'good', 'head': 'ok'})
             extra.append({'data': dd, 'md5': 'multi', 'prior': pr, 'good': 'good', 'head': 'ok'})
+            for mm in ('bare', 'nolength', 'gzip_md5'):
+                extra.append({'data': dd, 'md5': mm, 'prior': pr, 'good': 'good', 'head': 'ok'})
             extra.append({'data': dd, 'md5': 'correct', 'prior': pr, 'good': 'good', 'head': 'ok', 'conditional': True})
             extra.append({'data': dd, 'md5': 'correct', 'prior': pr, 'good': 'good', 'head': 'ok', 'outpath': 'link_dotdot'})
     # gateway errors (502 / 503) are HTTP errors like any other; servers that honour Range requests
@@ -404,11 +420,11 @@ def run_case(case, ctx, shared=None):
             all_md5_ok = True
             md5_served = md5_served or [case['md5']]
         # (1) the central safety property
-        strict = all(m in ('correct', 'wrong', 'missing', 'latin1', 'multi') for m in
+        strict = all(m in ('correct', 'wrong', 'missing', 'latin1', 'multi', 'bare', 'nolength', 'gzip_md5') for m in
                      (case['md5'] if isinstance(case['md5'], list) else [case['md5']]))
         if r.ok and all_md5_ok:
             last = md5_served[-1]
-            pub = {'correct': published, 'upper': published, 'latin1': published, 'latin1_undeclared': published, 'multi': published, 'garbage': None}.get(
+            pub = {'correct': published, 'upper': published, 'latin1': published, 'latin1_undeclared': published, 'multi': published, 'bare': published, 'nolength': published, 'gzip_md5': published, 'garbage': None}.get(
                 last, hashlib.md5(b'something else').hexdigest())
             if final is None or hashlib.md5(final).hexdigest() != pub:
                 ctx.violation('returned_with_bad_checksum', case,
